@@ -117,31 +117,99 @@ def _case_worker_inner(case):
         m = Model(n, tabs, max_motifs=config.get("max_motifs_per_node", 100000))
         m.add("init")
         real = [("init", dump_real(sd), None)]
+        nomodel = bool(case.get("nomodel"))
         for op in history:
             r, tape, sd = H.apply_real(sd, op, nm)
-            m.add(H.model_cmd(op, tape))
+            m.add("dump" if nomodel else H.model_cmd(op, tape))
             meta = {"minimal": [sp2s(sd.node_data(i)["space"], nm) for i in sd.minimal_trap_spaces()],
                     "depth": sd.depth(), "len": len(sd)}
+            if case.get("attr"):
+                meta["attr"] = attr_snapshot(sd, nm)
             real.append((H.sort_ids(r), dump_real(sd), meta))
         out = m.run()
         # reference (always with an unlimited configuration)
         m2 = Model(n, tabs)
         m2.add("init"); m2.add("op bfs - - -"); m2.add("mintraps " + "*" * n); m2.add("percolate " + "*" * n)
+        m2.add("attractors")
+        chk_index = []
+        if case.get("attr"):
+            seen_cmd = {}
+            for idx, (_, _, meta) in enumerate(real):
+                for item in (meta or {}).get("attr", []):
+                    for kind, cmd in attr_cmds(item):
+                        if cmd is None:
+                            chk_index.append((idx, item["id"], kind, None)); continue
+                        if cmd not in seen_cmd:
+                            seen_cmd[cmd] = m2.add(cmd)
+                        chk_index.append((idx, item["id"], kind, seen_cmd[cmd]))
+        gidx = None
+        if case.get("global_seeds") and real[-1][2] is not None:
+            allseeds = [x for item in real[-1][2].get("attr", []) if item["exp"] for x in item.get("seeds", [])]
+            if all("*" not in x for x in allseeds):
+                gidx = m2.add(f"chk seeds {'*' * n} - {','.join(allseeds) or '-'}")
         ref_out = m2.run()
+        global_verdict = None if gidx is None else ref_out[gidx]
+        verdicts = [(idx, nid, kind, ("notfullstate" if ci is None else ref_out[ci])) for idx, nid, kind, ci in chk_index]
         steps = []
         for idx, ((r, d, meta), line) in enumerate(zip(real, out)):
             if idx == 0:
                 mr, md = "init", line
+            elif nomodel:
+                mr, md = r, d
             else:
                 mr, md = line.split(" ", 1)
                 mr = H.sort_ids(mr[len("result="):])
             steps.append({"real_result": r, "model_result": mr, "real": d, "model": md, "meta": meta})
         return {"case": case, "steps": steps, "ref_full": ref_out[1].split(" ", 1)[1], "mintraps": parse_spaces(ref_out[2]),
-                "root": ref_out[3], "n": n, "error": None}
+                "root": ref_out[3], "attractors": parse_attractors(ref_out[4]), "verdicts": verdicts, "global_verdict": global_verdict, "n": n, "error": None}
     except CaseTimeout:
         raise
     except Exception as e:  # harness error: reported, never silently dropped
         return {"case": case, "error": traceback.format_exc()}
+
+def vs_states(sd, vs, nm):
+    out = []
+    for m in vs.items():
+        d = {sd.network.get_variable_name(k): int(v) for k, v in m.to_dict().items()}
+        out.append("".join(str(d[v]) for v in nm))
+    return sorted(out)
+
+def attr_snapshot(sd, nm):
+    """cached attractor data of every node, with the successor motifs it has to be correct for"""
+    snap = []
+    for i in range(len(sd)):
+        d = sd.node_data(i)
+        c, se, st = d["attractor_candidates"], d["attractor_seeds"], d["attractor_sets"]
+        if c is None and se is None and st is None:
+            continue
+        motifs = []
+        if d["expanded"]:
+            motifs = [sp2s(sd.edge_stable_motif(i, j), nm) for j in sd.dag.successors(i)]
+        item = {"id": i, "space": sp2s(d["space"], nm), "exp": bool(d["expanded"]), "skip": bool(d["skipped"]), "motifs": motifs}
+        if c is not None:
+            item["cands"] = [sp2s(x, nm) for x in c]
+        if se is not None:
+            item["seeds"] = [sp2s(x, nm) for x in se]
+        if st is not None:
+            item["sets"] = [vs_states(sd, x, nm) for x in st]
+        snap.append(item)
+    return snap
+
+def attr_cmds(item):
+    """model commands checking one snapshot item; returns list of (kind, cmd)"""
+    av = ";".join(item["motifs"]) or "-"
+    sp = item["space"]
+    out = []
+    full = lambda l: all("*" not in x for x in l)
+    if "cands" in item:
+        out.append(("cands", f"chk cover {sp} {av} {','.join(item['cands']) or '-'}") if full(item["cands"]) else ("cands", None))
+    if "seeds" in item:
+        kind = "sound" if item["skip"] else "seeds"
+        out.append(("seeds", f"chk {kind} {sp} {av} {','.join(item['seeds']) or '-'}") if full(item["seeds"]) else ("seeds", None))
+    if "sets" in item and "seeds" in item and not item["skip"]:
+        sets = "/".join(",".join(x) for x in item["sets"]) or "-"
+        out.append(("sets", f"chk sets {sp} {av} {','.join(item['seeds']) or '-'} {sets}"))
+    return out
 
 def corr_diffs(w, ignore_attr=False):
     """exact model-vs-code comparison of every step"""
@@ -172,8 +240,10 @@ def gen_cases(rng, count, nmin, nmax, kinds, max_len, cfg_choices=(100000,), two
     return cases
 
 def _fix_worker(case):
+    """clamp node ids to the diagram's size at that point and expand macro ops (seeds_all, ...)
+    into explicit per-node ops, by running the history once on the real side"""
     try:
-        sd = make_sd(case["rules"], case["config"]); nm = var_names(sd)
+        sd = make_sd(case["rules"], case.get("config") or {}); nm = var_names(sd)
         out = []
         for op in case["history"]:
             op = list(op)
@@ -182,12 +252,29 @@ def _fix_worker(case):
             if op[0] in ("expand", "skipmin", "cands", "seeds", "sets"):
                 op[1] = op[1] % len(sd)
             op = tuple(op)
-            _, _, sd = H.apply_real(sd, op, nm)
-            out.append(op)
+            if not case.get("nomodel") and op[0] in ("seeds_all", "sets_all", "seeds_every"):
+                ids = list(sd.node_ids()) if op[0] == "seeds_every" else list(sd.expanded_ids())
+                ops = [("sets", i) if op[0] == "sets_all" else ("seeds", i, bool(op[1]) if len(op) > 1 else False) for i in ids]
+            else:
+                ops = [op]
+            for o in ops:
+                _, _, sd = H.apply_real(sd, o, nm)
+                out.append(o)
         case = dict(case); case["history"] = out
         return case
     except Exception:
         return case
+
+def load_corpus(pid):
+    path = os.path.join(VERIF, "corpus", pid + ".jsonl")
+    pre = []
+    if os.path.exists(path):
+        for l in open(path):
+            if l.strip():
+                c = json.loads(l)
+                c["history"] = [tuple(o) for o in c["history"]]
+                pre.append(c)
+    return pre
 
 def summarize(ws, nontrivial):
     seen = set(); distinct = 0
@@ -225,3 +312,4 @@ def replay(pid, case):
     return {"holds": not corr_diffs(w), "diffs": corr_diffs(w), "steps": [(s["real_result"], s["model_result"]) for s in w["steps"]]}
 
 from props_struct import *   # noqa  (registers C02, C03, C04, C15, C16, C20)
+from props_attr import *     # noqa  (registers C01, C05, C08, C12, C14)
